@@ -24,9 +24,9 @@ func (k *kaClient) Connect(ctx context.Context, clientID string, opts ...mqtt.Co
 	return false, nil
 }
 func (k *kaClient) Disconnect(ctx context.Context) error                  { return nil }
-func (k *kaClient) Publish(ctx context.Context, m *mqtt.Message) error     { return nil }
-func (k *kaClient) Unsubscribe(ctx context.Context, subs ...string) error  { return nil }
-func (k *kaClient) Handle(mqtt.Handler)                                    {}
+func (k *kaClient) Publish(ctx context.Context, m *mqtt.Message) error    { return nil }
+func (k *kaClient) Unsubscribe(ctx context.Context, subs ...string) error { return nil }
+func (k *kaClient) Handle(mqtt.Handler)                                   {}
 func (k *kaClient) Subscribe(ctx context.Context, subs ...mqtt.Subscription) ([]mqtt.Subscription, error) {
 	return nil, nil
 }
